@@ -305,7 +305,7 @@ def jobs(tier):
     M = "harness.c17"
     out = []
     for attr in OPS:
-        ng = 1 if attr == "load_one" else 6
+        ng = 1 if (attr == "load_one" and tier == "thorough") else 6      # thorough: one job without name partition as well
         for k in range(ng + 1 if ng > 1 else 1):
             out.append(job("C17", f"select-by-name[{attr}]" + (f"#{k}" if ng > 1 else ""), M, "h_select_name",
                            dict(attr=attr, group=(k, ng) if ng > 1 else None), budget_s=600, validate=False,
@@ -315,7 +315,7 @@ def jobs(tier):
         out.append(job("C17", f"no-touch-on-error[{attr}]", M, "h_no_touch_on_error", dict(attr=attr), budget_s=900,
                        validate=False))
     out.append(job("C17", "select-by-name[twin]", M, "h_select_name", dict(attr="load_one", twin=True),
-                   expect="cex", budget_s=600, validate=False))
+                   expect="cex", budget_s=600, validate=False, stop_after_cex=1))
     out.append(job("C17", "input-select", M, "h_input_select", {}))
     out.append(job("C17", "glob-translation", M, "h_glob_translation", {}, validate=False))
     import iodata.api as api
